@@ -86,7 +86,8 @@ def createCtx (s : State) (id : CtxId) (mod : ModName) (svc : SvcName) (provs : 
     else match cap with
     | none => fail s .invalidDeposit
     | some capv =>
-      if timeout > s.params.maxTimeout then fail s .invalidTimeout
+      if capv = 0 then fail s .invalidDeposit
+      else if timeout > s.params.maxTimeout then fail s .invalidTimeout
       else
         let x := newCtxRec mod svc provs cons capv timeout super rep freq total running thr
         let s1 := { setCtx s id x with usedIds := id :: s.usedIds }
@@ -294,7 +295,8 @@ def updateK (s : State) (c : CtxId) (cons : Addr) (provs : List Addr) (thr : Nat
         match updThr x provs thr cap timeout freq total with
         | .error e => fail s e
         | .ok x1 =>
-          if timeout > s.params.maxTimeout then fail s .invalidTimeout
+          if cap = some 0 then fail s .invalidDeposit      -- `validateServiceFeeCap`: a zero-amount coin is not a valid cap
+          else if timeout > s.params.maxTimeout then fail s .invalidTimeout
           else
             if effTimeout x timeout < 0 ∨ (effFreq x freq : Int) < effTimeout x timeout then
               fail s .invalidRepeatedFreq   -- `freq < uint64(timeout)`
